@@ -261,8 +261,90 @@ def impl_multi(case):
     return out, fail, 'multi'
 
 
+def check_ioport(case):
+    """the IOPort wrapper over an input and an output device double (implementation against the statement; same case format as impl_port)"""
+    import mido.ports as ports
+    ar, echo, fuel, nf = case[:4]
+    faults = case[4:4 + nf]
+    ns = case[4 + nf]
+    script, ops = decode_actions(ns, case[5 + nf:])
+    sti, sto = {'sleeps': 0, 'taken': []}, {'sleeps': 0, 'taken': []}
+    inp = make_port(0, 0, script, sti)
+    outp = make_port(ar, 0, [], sto, faults)
+    port = ports.IOPort(inp, outp)
+
+    def fake_sleep():
+        sti['per_call'] = sti.get('per_call', 0) + 1
+        if sti['per_call'] >= fuel:
+            raise Hang()
+    saved = ports.sleep
+    ports.sleep = fake_sleep
+    delivered, fail, i = [], None, 0
+    try:
+        while i < len(ops) and fail is None:
+            k = ops[i]
+            arg = ops[i + 1] if k in (0, 1, 4, 6) else None
+            i += 2 if k in (0, 1, 4, 6) else 1
+            sti['per_call'] = 0
+            closed_before = port.closed
+            try:
+                if k == 0:
+                    port.send(mkmsg(arg))
+                    if closed_before:
+                        fail = ('ioport-send-on-closed', 'send on a closed IOPort did not raise')
+                elif k in (1, 2):
+                    m = port.receive(block=bool(arg)) if k == 1 else port.poll()
+                    if m is not None:
+                        delivered.append(msgid(m))
+                    elif inp._messages:
+                        fail = ('ioport-drain', 'a call returned nothing while %r was queued' % ([msgid(x) for x in inp._messages],))
+                elif k == 3:
+                    for m in port.iter_pending():
+                        delivered.append(msgid(m))
+                elif k == 4:
+                    for m in (itertools.islice(iter(port), arg) if arg >= 0 else iter(port)):
+                        delivered.append(msgid(m))
+                elif k == 5:
+                    port.close()
+                elif k == 6:
+                    with port:
+                        port.send(mkmsg(arg))
+                elif k == 7:
+                    port.__del__()
+                else:
+                    port.reset()
+            except Hang:
+                if k in (2, 3) or (k == 1 and not arg):
+                    fail = ('ioport-nonblocking-hangs', 'a non-blocking call on the IOPort never returned')
+            except Exception as e:  # noqa: BLE001
+                if k == 6 and not port.closed:
+                    port.close()
+                legit = (k in (0, 6, 8) and ((closed_before and isinstance(e, ValueError)) or str(e) == 'device fault' or (outp.closed and isinstance(e, ValueError)))) \
+                    or (k == 1 and arg and isinstance(e, (ValueError, OSError)) and inp.closed and not inp._messages)
+                if not legit:
+                    fail = ('ioport-raises:' + type(e).__name__, 'operation %d on the IOPort raised %r (closed before: %r)' % (k, e, closed_before))
+            if fail is None and (sti['closes'] > 1 or sto['closes'] > 1):
+                fail = ('ioport-closed-twice', 'a device behind the IOPort was released more than once (%d, %d)' % (sti['closes'], sto['closes']))
+            if fail is None and port.closed and not (inp.closed and outp.closed and sti['closes'] == 1 and sto['closes'] == 1):
+                fail = ('ioport-close-incomplete', 'the IOPort is closed but its devices are not both released exactly once (%r, %r)' % (sti['closes'], sto['closes']))
+            if fail is None and delivered + [msgid(m) for m in inp._messages] != sti['taken']:
+                fail = ('ioport-lost-or-reordered', 'taken in %r, handed out %r, queued %r' % (sti['taken'], delivered, [msgid(m) for m in inp._messages]))
+    finally:
+        ports.sleep = saved
+    return fail
+
+
 def job(j):
     tag, comp, cases = j
+    if tag == 'ioport':
+        rec = {'n': len(cases), 'dis': [], 'fail': [], 'dist': {'ioport': len(cases)}, 'hashes': {hash(tuple(c)) for c in cases}, 'ndis': 0, 'nfail': 0}
+        for c in cases:
+            f = check_ioport(c)
+            if f is not None:
+                rec['nfail'] += 1
+                if len(rec['fail']) < 10:
+                    rec['fail'].append((f[0], f[1], {'component': 'ioport', 'case': c}))
+        return tag, rec
     if tag == 'server':
         from props import c18
         return tag, core.eval_cases(comp, cases, c18.impl_server)
@@ -368,6 +450,7 @@ def run(out):
         c += [rng.randrange(1, 4)]
         servers.append(c)
     jobs = chunk_jobs(cases, 'port', COMP_PORT) + chunk_jobs(multis, 'multi', COMP_MULTI, 4) + chunk_jobs(servers, 'server', 111, 4)
+    jobs += chunk_jobs([c for c in cases if c[1] == 0][::3], 'ioport', 0, 4)          # the same histories on the IOPort wrapper (against the statement)
     for tag, rec in core.pmap(job, jobs):
         core.merge_into(out, rec, tag)
     out.rule = ('device doubles (BaseIOPort and EchoPort subclasses recording _open/_close/_send, fed by a script of _receive actions: message, nothing, push into the queue, '
